@@ -77,7 +77,7 @@ BCbBegin == /\ bpc = "cb0" /\ DCbBegin(inHand, RTake(RDrop(pend, handLo - delive
 BCbEnd ==   /\ bpc = "cb1" /\ DCbEnd /\ bpc' = "recycle" /\ UNCHANGED <<timeup, quit, timedout, notified>> /\ U_B
 BRecycle ==       \* under buff_num_mutex_: delete the buffer if there are more than MinB, else decide to put it back
   /\ bpc = "recycle"
-  /\ IF buffNum > MinB THEN DShrink(buffNum - 1) /\ bpc' = "drain" ELSE UNCHANGED dvars /\ bpc' = "putback"
+  /\ IF buffNum > MinB THEN DShrinkHeld(buffNum - 1) /\ bpc' = "drain" ELSE UNCHANGED dvars /\ bpc' = "putback"
   /\ UNCHANGED <<timeup, quit, timedout, notified>> /\ U_B
 BPutBack ==       \* under free_buffers_mutex_: put the buffer back and notify waiting producers
   /\ bpc = "putback" /\ mFree = 0 /\ DRecycle(freeN + 1) /\ bpc' = "drain"
